@@ -403,7 +403,8 @@ func runList(c ListCase) []ev.Violation {
 		return nil
 	}
 	for i, u := range urls {
-		_ = r.s.RegisterModels(u, fmt.Sprintf("vm-e%d-only", i), fmt.Sprintf("vm-e%d-also", i))
+		// two models only this endpoint has, and one that every endpoint lists
+		_ = r.s.RegisterModels(u, fmt.Sprintf("vm-e%d-only", i), fmt.Sprintf("vm-e%d-also", i), "vm-shared-by-all")
 	}
 	path := "v1/models"
 	if c.Route == "native" {
@@ -459,6 +460,10 @@ func runList(c ListCase) []ev.Violation {
 	seen := map[string]bool{}
 	for _, m := range modelTok.FindAllStringSubmatch(last, -1) {
 		seen[m[1]] = true
+	}
+	if strings.Contains(last, "vm-shared-by-all") && len(allowed) == 0 {
+		vs = append(vs, ev.Violation{Sig: "listing-shows-shared-model-without-available-provider-endpoint",
+			Detail: fmt.Sprintf("engine=%s GET /olla/%s/%s with endpoints %+v lists the model every endpoint has although no healthy endpoint of a compatible type exists; body %q", c.Engine, c.Prefix, path, c.EPs, trunc([]byte(last), 300))})
 	}
 	for idx := range seen {
 		if !allowed[idx] {
